@@ -579,6 +579,110 @@ theorem custom_same_time_counterexample :
       [COp.get ⟨"p1", 10, ["||a^"], true⟩, .get ⟨"p1", 10, ["||b^"], true⟩].map cuFresh := by
   decide
 
+/-! ## Where the version stamp comes from: backend → `ProfileStorage.Profiles` → `profiledb` → cache file -/
+
+/-- **custom_sync_no_stale.** The custom-filter cache at the end of the synchronisation pipeline: for
+every history of rule edits at the backend, full and incremental synchronisations, restarts from the
+cache file, requests and evictions, every request is answered with the rules `profiledb` holds for its
+profile at that moment — exactly as if the custom-filter cache were emptied before every request —
+provided `Profiles` stamps the profiles of a later call strictly later than those of an earlier one,
+whatever sync time was requested (`StrictStamp`; `time.Now()` does, see `stampNow_strict`). -/
+theorem custom_sync_no_stale (stamp : Stamp) (hs : StrictStamp stamp) (ops : List YOp) :
+    Sync.run stamp Sync.init ops = Sync.runFresh stamp Sync.init ops := by
+  have key : ∀ (ops : List YOp) (s : Sync), s.Inv stamp → Sync.run stamp s ops = Sync.runFresh stamp s ops := by
+    intro ops
+    induction ops with
+    | nil => intro _ _; rfl
+    | cons op ops ih =>
+      intro s hi
+      have hn := ih _ (Sync.step_inv hs hi op)
+      cases op with
+      | query id => simp only [Sync.run, Sync.runFresh, Sync.query_out hi id, hn]
+      | change id rules dt => simp only [Sync.run, Sync.runFresh, hn]; rfl
+      | sync full dt => simp only [Sync.run, Sync.runFresh, hn]; rfl
+      | restart => simp only [Sync.run, Sync.runFresh, hn]; rfl
+      | evict id => simp only [Sync.run, Sync.runFresh, hn]; rfl
+  exact key ops Sync.init (Sync.init_inv stamp)
+
+/-- The stamp of the code, `time.Now()`, is strict. -/
+theorem stampNow_strict : StrictStamp stampNow := by
+  intro now now' _ _ h
+  exact h
+
+/-- **custom_sync_no_stale_now.** `custom_sync_no_stale` for the stamp the code uses. -/
+theorem custom_sync_no_stale_now (ops : List YOp) :
+    Sync.run stampNow Sync.init ops = Sync.runFresh stampNow Sync.init ops :=
+  custom_sync_no_stale stampNow stampNow_strict ops
+
+/-- **custom_full_sync_installs_backend_rules.** After any history, a full synchronisation puts the
+backend's current rules of every profile in force: the next request of the profile is filtered with
+them (and with nothing when the backend has no rules for it), whatever the cache held. -/
+theorem custom_full_sync_installs_backend_rules (stamp : Stamp) (hs : StrictStamp stamp) (ops : List YOp)
+    (dt : Nat) (id : String) :
+    ((Sync.final stamp Sync.init (ops ++ [.sync true dt])).step stamp (.query id)).2 =
+      backendRules (Sync.final stamp Sync.init ops).backend id := by
+  have hfin : ∀ (ops : List YOp) (s : Sync), Sync.final stamp s (ops ++ [.sync true dt]) =
+      ((Sync.final stamp s ops).step stamp (.sync true dt)).1 := by
+    intro ops
+    induction ops with
+    | nil => intro s; rfl
+    | cons op ops ih => intro s; simp only [List.cons_append, Sync.final]; exact ih _
+  have hi := Sync.final_inv hs (ops ++ [.sync true dt]) (Sync.init_inv stamp)
+  rw [Sync.query_out hi, hfin]
+  generalize Sync.final stamp Sync.init ops = s
+  simp only [Sync.fresh, Sync.step, backendRules, delivered, Bool.true_or, Bool.and_true, if_true]
+  split
+  · rename_i c hc
+    split at hc
+    · rename_i p hp
+      simp only [Option.some.injEq] at hc
+      subst hc
+      simp only [cuFresh, confOf]
+      by_cases h : p.rules.isEmpty = true <;> simp [h]
+    · simp at hc
+  · rename_i hc
+    split at hc
+    · simp at hc
+    · rfl
+
+/-- Non-vacuity: edits delivered by a full, an incremental and again a full synchronisation, a profile
+whose rules are removed, a restart from the cache file (which has the state of the last full
+synchronisation) followed by an incremental synchronisation; every request sees the rules in force. -/
+example :
+    Sync.run stampNow Sync.init
+      [.change "p1" ["||a^"] 0, .change "p2" ["||x^"] 0, .sync true 0, .query "p1", .query "p2",
+       .change "p1" ["||b^"] 0, .query "p1", .sync false 0, .query "p1", .query "p2",
+       .change "p1" ["||c^"] 5, .change "p2" [] 0, .sync true 3, .query "p1", .query "p2",
+       .change "p1" ["||d^"] 0, .sync false 0, .query "p1", .restart, .query "p1", .sync false 0, .query "p1"] =
+      [none, none, none, some ["||a^"], some ["||x^"],
+       none, some ["||a^"], none, some ["||b^"], some ["||x^"],
+       none, none, none, some ["||c^"], none,
+       none, none, some ["||d^"], none, some ["||c^"], none, some ["||d^"]] := by
+  decide
+
+/-- **custom_sync_request_time_stamp_counterexample.** `StrictStamp` is necessary: if `Profiles`
+stamps the profiles with the sync time of the *request* (zero for every full synchronisation), rules
+that arrive with a second full synchronisation are not applied — the filter compiled from the old
+rules keeps being served. -/
+theorem custom_sync_request_time_stamp_counterexample :
+    Sync.run (fun _ req => req) Sync.init
+        [.change "p1" ["||a^"] 0, .sync true 0, .query "p1", .change "p1" ["||b^"] 0, .sync true 0, .query "p1"] =
+      [none, none, some ["||a^"], none, none, some ["||a^"]] ∧
+    Sync.runFresh (fun _ req => req) Sync.init
+        [.change "p1" ["||a^"] 0, .sync true 0, .query "p1", .change "p1" ["||b^"] 0, .sync true 0, .query "p1"] =
+      [none, none, some ["||a^"], none, none, some ["||b^"]] := by
+  decide
+
+/-- **custom_sync_coarse_stamp_counterexample.** Likewise for a stamp that is the local time at a
+coarser resolution (here: 60 ticks): two synchronisations within one unit deliver different rules
+under the same stamp. -/
+theorem custom_sync_coarse_stamp_counterexample :
+    Sync.run (fun now _ => now / 60) Sync.init
+        [.change "p1" ["||a^"] 0, .sync true 0, .query "p1", .change "p1" ["||b^"] 0, .sync false 0, .query "p1"] ≠
+      Sync.runFresh (fun now _ => now / 60) Sync.init
+        [.change "p1" ["||a^"] 0, .sync true 0, .query "p1", .change "p1" ["||b^"] 0, .sync false 0, .query "p1"] := by
+  decide
+
 #print axioms transparent_rulelist
 #print axioms rulelist_no_stale_after_refresh
 #print axioms rulelist_client_rule_counterexample
@@ -599,6 +703,12 @@ theorem custom_same_time_counterexample :
 #print axioms custom_rebuild_on_newer
 #print axioms custom_rebuild_any_schedule
 #print axioms custom_same_time_counterexample
+#print axioms custom_sync_no_stale
+#print axioms stampNow_strict
+#print axioms custom_sync_no_stale_now
+#print axioms custom_full_sync_installs_backend_rules
+#print axioms custom_sync_request_time_stamp_counterexample
+#print axioms custom_sync_coarse_stamp_counterexample
 
 end Agd.ResultCache
 #print axioms Agd.Tie.TrC12.translation_complete
